@@ -223,6 +223,9 @@ func tokVal(kind string, i int) string {
 		}
 		return fmt.Sprintf("%d", i)
 	case "wild":
+		if i%2 == 0 {
+			return fmt.Sprintf("w%d\\\\*", i) // w2\\* : an escaped backslash, then a wildcard
+		}
 		return fmt.Sprintf("w%d*", i)
 	case "star":
 		return "*"
